@@ -390,7 +390,42 @@ def emit_perms(perms):
     o.append("end Xc.Gen\n")
     return "\n".join(o)
 
-def generate(outdir, repo=cbuild.REPO, scratch=None, objs=None):
+def lstr(x): return "[" + ", ".join(str(ord(c)) for c in x) + "]"
+
+def abi_facts(d, repo):
+    """(symbol, version, default?) triples and alias classes of the shared library linked from the tree"""
+    sd = os.path.join(d, "abi_so"); os.makedirs(sd, exist_ok=True)
+    for f in ["config.h", "crypt-hashes.h", "crypt.h", "crypt-symbol-vers.h", "xcrypt.h", "libcrypt.map"]:
+        shutil.copy(os.path.join(d, f), sd)
+    so = cbuild.link_so(sd, cbuild.compile_lib(sd, repo, pic=True))
+    out = subprocess.run(["readelf", "--dyn-syms", "-W", so], text=True, capture_output=True).stdout
+    syms = []
+    for l in out.splitlines():
+        f = l.split()
+        if len(f) >= 8 and f[6] != "UND" and "@" in f[7] and f[3] == "FUNC":
+            name, ver = re.split("@@?", f[7]); syms.append((name, ver, "@@" in f[7], f[1]))
+    return sorted(syms)
+
+def emit_abi(syms, released):
+    o = [HDR, "namespace Xc.Gen\n"]
+    o.append("/-- (symbol, version, is the default version) exported by the library linked from the tree; names as ASCII codes -/")
+    o.append("def abi_exported : List (List Nat × List Nat × Bool) := [")
+    o.append(",\n".join("  (%s, %s, %s) /- %s@%s -/" % (lstr(n), lstr(v), "true" if dflt else "false", n, v) for n, v, dflt, a in syms) + "]\n")
+    cls = {}
+    for n, v, dflt, a in syms: cls.setdefault(a, []).append(n + "@" + v)
+    o.append("/-- classes of exported names bound to the same address (aliases) -/")
+    o.append("def abi_alias_classes : List (List (List Nat)) := [")
+    o.append(",\n".join("  [" + ", ".join(lstr(x) for x in sorted(c)) + "] /- %s -/" % " = ".join(sorted(c)) for c in sorted(cls.values()) if len(c) > 1) + "]\n")
+    o.append("/-- the same facts for the released library (committed under /verif/ref) -/")
+    o.append("def abi_released : List (List Nat × List Nat × Bool) := [")
+    o.append(",\n".join("  (%s, %s, %s) /- %s@%s -/" % (lstr(r["sym"]), lstr(r["ver"]), "true" if r["default"] else "false", r["sym"], r["ver"]) for r in released["symbols"]) + "]\n")
+    o.append("def abi_released_alias_classes : List (List (List Nat)) := [")
+    o.append(",\n".join("  [" + ", ".join(lstr(x) for x in c) + "]" for c in released["alias_classes"]) + "]\n")
+    o.append("def abi_released_layout : List (List Nat × Nat) := [" + ", ".join("(%s, %d)" % (lstr(k), v) for k, v in sorted(released["layout"].items())) + "]\n")
+    o.append("end Xc.Gen\n")
+    return "\n".join(o)
+
+def generate(outdir, repo=cbuild.REPO, scratch=None, objs=None, with_abi=False):
     own = scratch is None
     d = scratch or cbuild.mk_scratch("gen")
     try:
@@ -415,8 +450,10 @@ def generate(outdir, repo=cbuild.REPO, scratch=None, objs=None):
             "Words.lean": emit_words({"W": {k: x for k, x in v["W"].items() if not k.startswith("des_")}}, parse_md_steps(repo)),
             "DesTables.lean": emit_des(v),
         }
-        import gen_tables
-        files.update(gen_tables.generate(d, repo, v))
+        abi_ref = os.path.join(outdir, "Abi.lean")
+        if with_abi or not os.path.exists(abi_ref):
+            released = json.load(open(os.path.join(os.path.dirname(os.path.abspath(__file__)), "..", "ref", "released-4.4.33.json")))
+            files["Abi.lean"] = emit_abi(abi_facts(d, repo), released)
         for k, s in files.items():
             p = os.path.join(outdir, k)
             if not os.path.exists(p) or open(p).read() != s:
